@@ -388,6 +388,113 @@ def build(arg):
     return T
 """
 
+# ONE entity class whose architecture() adds dynamic ports (std.add_entity_port); three behaviours selected
+# by the build argument: "a" adds port tx, "b" adds port rx (another design on the same class), "fail" adds tx
+# and then raises.  Ports added by one build must not survive into the next one.
+MODULES["dyn"] = HEADER + """
+MODE = "a"
+
+class T(Entity):
+    clk = Port.input(Bit)
+    d = Port.input(Bit)
+
+    def architecture(self):
+        if MODE == "b":
+            rx = std.add_entity_port(self, Port.input(Bit, name="rx"))
+            q = std.add_entity_port(self, Port.output(Bit, name="q"))
+
+            @std.concurrent
+            def logic():
+                q.next = rx & self.d
+        else:
+            tx = std.add_entity_port(self, Port.output(Bit, name="tx"))
+            if MODE == "fail":
+                raise ValueError("user error after a dynamic port was added")
+
+            @std.sequential(std.Clock(self.clk))
+            def proc():
+                tx.next = self.d
+
+def build(arg):
+    global MODE
+    MODE = arg
+    return T
+"""
+
+# a module-level attributes dict passed together with comment= (must not be modified by a compilation)
+MODULES["attrs"] = HEADER + """
+ATTRS = {"zzz_user": 1}
+ATTRS2 = {"zzz_user": 2}
+
+class T(Entity):
+    clk = Port.input(Bit)
+    a = Port.input(Bit)
+    o = Port.output(Bit)
+    p = Port.output(Bit, default=False)
+
+    def architecture(self):
+        @std.concurrent(comment="combinational part", attributes=ATTRS)
+        def logic():
+            self.o <<= ~self.a
+
+        @std.sequential(std.Clock(self.clk), comment="registered part", attributes=ATTRS2)
+        def proc():
+            self.p <<= self.a
+
+def build(arg):
+    return T
+"""
+
+# sub-entities living in different VHDL libraries (attributes={"path": ...}), one of them extern
+MODULES["libpath"] = HEADER + """
+class LeafA(Entity, attributes={"path": "liba"}):
+    a = Port.input(Bit)
+    r = Port.output(Bit)
+
+    def architecture(self):
+        @std.concurrent
+        def logic():
+            self.r <<= ~self.a
+
+class LeafB(Entity, attributes={"path": "zlib"}):
+    a = Port.input(Bit)
+    r = Port.output(Bit)
+
+    def architecture(self):
+        @std.concurrent
+        def logic():
+            self.r <<= self.a
+
+class LeafC(Entity, attributes={"path": "mlib"}):
+    a = Port.input(Bit)
+    r = Port.output(Bit)
+
+    def architecture(self):
+        @std.concurrent
+        def logic():
+            self.r <<= self.a
+
+class Ext(Entity, extern=True, attributes={"path": "extlib"}):
+    a = Port.input(Bit)
+    r = Port.output(Bit)
+
+class T(Entity):
+    a = Port.input(Bit)
+    r0 = Port.output(Bit)
+    r1 = Port.output(Bit)
+    r2 = Port.output(Bit)
+    r3 = Port.output(Bit)
+
+    def architecture(self):
+        LeafB(a=self.a, r=self.r1)
+        LeafA(a=self.a, r=self.r0)
+        Ext(a=self.a, r=self.r3)
+        LeafC(a=self.a, r=self.r2)
+
+def build(arg):
+    return T
+"""
+
 # names that collide (case-insensitively, with reserved words, with each other across scopes)
 MODULES["names"] = HEADER + """
 class T(Entity):
@@ -729,8 +836,13 @@ LETTERS: dict[str, tuple] = {
     "alias": ("alias", None, "accept", "one Signal (and a sub-reference of it) bound to several Python names used in one context"),
     "record": ("record", None, "accept", "derived (2 levels) and templated std.Record, from_bits/to_bits layout"),
     "reserved": ("reserved", None, "accept", "compiled with std.VhdlCompiler.to_string(..., additional_reserved_names={...})"),
+    "dyn_a": ("dyn", "a", "accept", "entity class adding dynamic ports in architecture() (std.add_entity_port), variant a"),
+    "dyn_b": ("dyn", "b", "accept", "same class object, variant b adds other dynamic ports"),
+    "attrs": ("attrs", None, "accept", "module-level attributes dicts passed together with comment= to std.concurrent/std.sequential"),
+    "libpath": ("libpath", None, "accept", "sub-entities with different attributes={'path': lib}, one extern: library clauses"),
     "names": ("names", None, "accept", "colliding / reserved / case-different names"),
     "exitcoro": ("exitcoro", None, "accept", "sub-entities with coroutines + cohdl.always, cohdl.on_block_exit handlers"),
+    "rej_dyn": ("dyn", "fail", "reject", "same class as dyn_a/dyn_b: adds a dynamic port, then architecture() raises"),
     "rej_arch": ("rej_arch", None, "reject", "exception raised in architecture()"),
     "rej_block": ("rej_block", None, "reject", "exception inside a nested std.block (std.block itself raises TypeError in this version)"),
     "rej_ctx": ("rej_ctx", None, "reject", "type error in a plain concurrent context body"),
